@@ -117,7 +117,14 @@ def run(ctx):
             sigma = (sx * sx + sy * sy).sqrt()
             conv_rel = (TOL * orc.degree(ul, ur)) if ul is not ur else Fraction(0)
             mtol = max(abs(x), abs(y)) * (Decimal("1e-9") + D(conv_rel) + width)
-            if abs(D(result.measurand.magnitude) - f) > mtol:
+            # scales with a zero point (degC, degF): a reading converts affinely (that is C10's subject, and the
+            # measurand is only compared with the plain operation below), but an uncertainty is a *difference* of
+            # readings and converts by the size of the degree alone - sigma above is exactly that
+            affine = (ul is not ur) and (orc.uses_offset(ul) or orc.uses_offset(ur))
+            if affine:
+                ctx.count("postconditions/operands_on_scales_with_a_zero_point")
+                mtol = (max(abs(x), abs(y)) + 500) * Decimal("1e-9")
+            elif abs(D(result.measurand.magnitude) - f) > mtol:
                 ctx.violation(f"C14:{label}:wrong-measurand", f"{label}: measurand {result.measurand.magnitude!r} {ures}, exact {core.sf(f)!r}", case)
             # ... and equals the same operation on the plain quantities
             try:
@@ -128,6 +135,16 @@ def run(ctx):
                     ctx.violation(f"C14:{label}:measurand-differs-from-plain-operation", f"{result.measurand!r} vs {plain!r}", case)
             except Exception:
                 pass
+            if affine:
+                got = D(result.uncertainty.magnitude)
+                # rounding: the zero points (up to 500 K) expressed in the result's degrees set the float scale
+                rk = orc.ratio(ures, m.Unit._by_name["kelvin"])
+                scale = Decimal(500) / D((rk[0] + rk[1]) / 2) + abs(x) + abs(y)
+                if abs(got - sigma) > sigma * Decimal("1e-6") + scale * Decimal("1e-12"):
+                    ctx.violation(f"C14:{label}:wrong-uncertainty:scale-with-zero-point",
+                                  f"{label}: {left!r} and {right!r}: uncertainty {result.uncertainty.magnitude!r} {ures}, first-order propagation gives {core.sf(sigma)!r} "
+                                  f"(an uncertainty is a difference and converts by the size of the degree, not by the zero point)", case)
+                return
             compare_sigma(label, result, sigma, max(abs(x), abs(y)), D(conv_rel) + width, case)
         return cond
 
@@ -272,11 +289,50 @@ def run(ctx):
         except Exception:
             pass
         ctx.count("witnesses_rerun")
+    scale_units = [m.Unit._by_name[nm] for nm in ("kelvin", "celsius", "fahrenheit", "Rankine") if nm in m.Unit._by_name]
+
+    def temperature_case(opname, fn):
+        ua, ub = rng.choice(scale_units), rng.choice(scale_units)
+        if rng.random() < 0.2:
+            ua = pools.prefixes[rng.choice(["milli", "kilo"])] * ua
+        x, y = rng.choice([300, 20, -40, 273.15, 0, 451.5, Decimal("36.6")]), rng.choice([10, 50, -5.5, 0, 491.67, Decimal("2.5")])
+        sx, sy = rng.choice([0, 0.3, 0.5, 2]), rng.choice([0, 0.4, 1.8, 0.01])
+        if isinstance(x, Decimal):
+            sx = Decimal(repr(sx))
+        if isinstance(y, Decimal):
+            sy = Decimal(repr(sy))
+        A, B_ = Mt(Q(x, ua), sx), Mt(Q(y, ub), sy)
+        side = rng.choice(["M-M", "M-M", "M-Q", "Q-M"])
+        left, right = A, B_
+        if side == "M-Q":
+            right = B_.measurand
+        elif side == "Q-M":
+            left = A.measurand
+        e = rng.randint(-2, 3)
+        state["case"] = {"op": opname, "side": side, "left": repr(left), "right": repr(right), "n": e, "temperature_scales": True}
+        ctx.distinct(("temperature", opname, side, str(ua), str(ub), bool(sx), bool(sy)), bool(sx) or bool(sy))
+        ctx.count(f"cells/temperature/{opname}")
+        try:
+            if opname == "pow":
+                if isinstance(left, Q) or (x == 0 and e <= 0):
+                    return
+                left**e
+            elif opname == "truediv" and y == 0:
+                return
+            else:
+                fn(left, right)
+        except (CNF, TypeError, m.FractionalDimensionError, ZeroDivisionError, OverflowError, ArithmeticError):
+            ctx.count(f"no_answer/temperature/{opname}")
+
     n = ctx.scale(40000, 1_000_000) // 2
     ops = [("add", operator.add), ("sub", operator.sub), ("mul", operator.mul), ("truediv", operator.truediv), ("pow", None)]
     for i in range(n):
         ctx.count("evaluations")
         opname, fn = rng.choice(ops)
+        if i % 25 == 7 and scale_units:
+            # operands read on temperature scales (every convertible unit choice counts, also those with a zero point)
+            temperature_case(opname, fn)
+            continue
         fa = pools.random_factors(rng, max_factors=rng.choice([1, 1, 2]), max_exp=2, hostile=0.15, physical_only=True, prefix_prob=0.3)
         try:
             ua = mdl.eval_real(pools.factors_term(fa))
